@@ -644,6 +644,24 @@ def fft_route_items(g, ft, pr):
                     f'def {name}Transform : String := "{u(mid.func).split(".")[-1]}"\n'
                     f'def {name}PadsWithPad2dQ : Bool := {"true" if pad_ok else "false"}')
         return build
+    def dispatch(name, fwd):
+        def build():
+            fn = get_def(pr, name)
+            cm = find_calls(fn, 'mdft.dft2' if fwd else 'mdft.idft2')
+            cc = find_calls(fn, 'czt.czt2' if fwd else 'czt.iczt2')
+            if len(cm) != 1 or len(cc) != 1:
+                raise Untranslatable(f'{name}: expected one matrix-DFT and one chirp-Z call')
+            am = {k.arg: u(k.value) for k in cm[0].keywords}
+            ac = {k.arg: u(k.value) for k in cc[0].keywords}
+            if cm[0].args or cc[0].args:
+                raise Untranslatable(f'{name}: positional engine arguments')
+            same = am == ac and set(am) == {'ary', 'Q', 'samples_out', 'shift'}
+            return f'def {name}EnginesGetSameArgs : Bool := {"true" if same else "false"}'
+        return build
+    for name, fwd in (('focus_fixed_sampling', True), ('unfocus_fixed_sampling', False)):
+        g.item(f'{name}.dispatch', f'prysm/propagation.py:{name}', (lambda nm: (lambda: get_def(pr, nm)))(name),
+               dispatch(name, fwd), f'def {name}EnginesGetSameArgs : Bool := true')
+
     for name, inner in (('focus', 'fft2'), ('unfocus', 'ifft2')):
         g.item(f'{name}.route', f'prysm/propagation.py:{name}', (lambda nm: (lambda: get_def(pr, nm)))(name), route(name, inner),
                f'def {name}OuterIsFftshift : Bool := true\ndef {name}InnerIsIfftshift : Bool := true\n'
